@@ -92,6 +92,10 @@ func main() {
 			fmt.Fprintln(os.Stderr, err)
 			os.Exit(2)
 		}
+		if a := os.Getenv("PORTLINT_ATOMS"); a != "" {
+			probeAtoms(c, a)
+			os.Exit(0)
+		}
 		probeSiblings(c)
 		probeSiblingCandidates(c)
 		os.Exit(0)
